@@ -1571,6 +1571,18 @@ func ruleO20(c *Ctx) {
 					}
 				}
 			}
+			// the bridge from the legacy flags: at least one field comes from a package-level variable
+			bridge := false
+			for _, v := range set {
+				if ld, ok := v.(*ssa.UnOp); ok && ld.Op == token.MUL {
+					if _, isG := ld.X.(*ssa.Global); isG {
+						bridge = true
+					}
+				}
+			}
+			if !bridge {
+				return
+			}
 			for i := 0; i < st.NumFields(); i++ {
 				if bt, ok := st.Field(i).Type().Underlying().(*types.Basic); !ok || bt.Kind() != types.Bool {
 					continue
@@ -1945,4 +1957,303 @@ func ruleD8(c *Ctx) {
 		}
 	}
 	c.note("%d yielding Range enumerations", n)
+}
+
+// ---------- T11: every source of scanner input has its carriage returns normalised ----------
+
+func init() {
+	register("T11", "\\r\\n and \\r are newlines for every way text reaches the scanner: either the scanner's rune readers (the methods that take a byte from the unread input and return a rune) test it against '\\r', or every assignment of fresh text to the unread input - from readSource for whole files, and from the readline callback that ParseCompoundStmt uses for interactive input - passes it through a function that tests bytes against '\\r'. Normalising in readSource alone leaves the interactive path with raw carriage returns, which the scanner then rejects as unexpected characters", 1, ruleT11)
+	claim("C14", "T11")
+}
+
+func ruleT11(c *Ctx) {
+	scannerT := c.P.Named("syntax", "scanner")
+	if scannerT == nil {
+		c.anchorFail("syntax.scanner not found")
+		return
+	}
+	isRestField := func(fa *ssa.FieldAddr) bool {
+		if !isNamed(deref(fa.X.Type()), "syntax", "scanner") {
+			return false
+		}
+		f := deref(fa.X.Type()).Underlying().(*types.Struct).Field(fa.Field)
+		sl, ok := f.Type().Underlying().(*types.Slice)
+		if !ok {
+			return false
+		}
+		bt, ok := sl.Elem().Underlying().(*types.Basic)
+		return ok && bt.Kind() == types.Uint8 && f.Name() == "rest"
+	}
+	wide := func(v ssa.Value) map[ssa.Value]bool {
+		out := map[ssa.Value]bool{}
+		var walk func(x ssa.Value, d int)
+		walk = func(x ssa.Value, d int) {
+			if x == nil || out[x] || d > 10 {
+				return
+			}
+			out[x] = true
+			switch y := x.(type) {
+			case *ssa.BinOp:
+				walk(y.X, d+1)
+				walk(y.Y, d+1)
+			case *ssa.Convert:
+				walk(y.X, d+1)
+			case *ssa.ChangeType:
+				walk(y.X, d+1)
+			case *ssa.Phi:
+				for _, e := range y.Edges {
+					walk(e, d+1)
+				}
+			case *ssa.Extract:
+				walk(y.Tuple, d+1)
+			case *ssa.Call:
+				for _, a := range y.Call.Args {
+					walk(a, d+1)
+				}
+			case *ssa.Slice:
+				walk(y.X, d+1)
+			case *ssa.IndexAddr:
+				walk(y.X, d+1)
+			case *ssa.Index:
+				walk(y.X, d+1)
+			case *ssa.Lookup:
+				walk(y.X, d+1)
+			case *ssa.UnOp:
+				walk(y.X, d+1)
+			}
+		}
+		walk(v, 0)
+		return out
+	}
+	fromRest := func(v ssa.Value) bool {
+		for x := range wide(v) {
+			if ld, ok := x.(*ssa.UnOp); ok && ld.Op == token.MUL {
+				if fa, ok := ld.X.(*ssa.FieldAddr); ok && isRestField(fa) {
+					return true
+				}
+			}
+		}
+		return false
+	}
+	testsCR := func(f *ssa.Function) bool {
+		found := false
+		eachInstr(f, func(in ssa.Instruction) {
+			b, ok := in.(*ssa.BinOp)
+			if !ok || (b.Op != token.EQL && b.Op != token.NEQ) {
+				return
+			}
+			if k, isK := constInt(b.Y); isK && k == '\r' {
+				found = true
+			}
+			if k, isK := constInt(b.X); isK && k == '\r' {
+				found = true
+			}
+			// bytes.IndexByte(data, '\r') and the like
+		})
+		if !found {
+			eachInstr(f, func(in ssa.Instruction) {
+				if call, ok := in.(*ssa.Call); ok {
+					for _, a := range call.Call.Args {
+						if k, isK := constInt(a); isK && k == '\r' {
+							found = true
+						}
+					}
+				}
+			})
+		}
+		return found
+	}
+	// the rune readers
+	var readers []*ssa.Function
+	readersOK := true
+	for _, fn := range c.P.Funcs {
+		if relPkg(fnPkgPath(fn)) != "syntax" || fn.Signature.Recv() == nil || !isNamed(deref(fn.Signature.Recv().Type()), "syntax", "scanner") {
+			continue
+		}
+		res := fn.Signature.Results()
+		if res.Len() != 1 {
+			continue
+		}
+		if bt, ok := res.At(0).Type().Underlying().(*types.Basic); !ok || bt.Kind() != types.Int32 {
+			continue
+		}
+		returnsInput := false
+		eachInstr(fn, func(in ssa.Instruction) {
+			if ret, ok := in.(*ssa.Return); ok && len(ret.Results) == 1 && fromRest(ret.Results[0]) {
+				returnsInput = true
+			}
+		})
+		if !returnsInput {
+			continue
+		}
+		readers = append(readers, fn)
+		if !testsCR(fn) {
+			readersOK = false
+		}
+	}
+	if len(readers) == 0 {
+		c.anchorFail("no rune reader of the scanner found")
+		return
+	}
+	if readersOK {
+		for _, r := range readers {
+			c.ok(fmt.Sprintf("%s: carriage return", fnName(r)), c.P.Pos(r.Pos()), "the reader tests the byte against '\\r'")
+		}
+		return
+	}
+	// otherwise every source must be normalised
+	var normalises func(f *ssa.Function, depth int, seen map[*ssa.Function]bool) bool
+	normalises = func(f *ssa.Function, depth int, seen map[*ssa.Function]bool) bool {
+		if f == nil || seen[f] || depth > 3 || len(f.Blocks) == 0 {
+			return false
+		}
+		seen[f] = true
+		if testsCR(f) {
+			return true
+		}
+		found := false
+		eachInstr(f, func(in ssa.Instruction) {
+			if call, ok := in.(*ssa.Call); ok {
+				if cal := call.Call.StaticCallee(); cal != nil && strings.HasPrefix(fnPkgPath(cal), modPath) && normalises(cal, depth+1, seen) {
+					found = true
+				}
+			}
+		})
+		return found
+	}
+	n := 0
+	for _, fn := range c.P.Funcs {
+		if relPkg(fnPkgPath(fn)) != "syntax" {
+			continue
+		}
+		ord := 0
+		eachInstr(fn, func(in ssa.Instruction) {
+			st, ok := in.(*ssa.Store)
+			if !ok {
+				return
+			}
+			fa, ok := st.Addr.(*ssa.FieldAddr)
+			if !ok || !isRestField(fa) || fromRest(st.Val) {
+				return
+			}
+			if k, isK := st.Val.(*ssa.Const); isK && k.Value == nil {
+				return
+			}
+			n++
+			ord++
+			key := fmt.Sprintf("%s: fresh input #%d", fnName(fn), ord)
+			good := false
+			for x := range wide(st.Val) {
+				if call, ok := x.(*ssa.Call); ok {
+					if normalises(call.Call.StaticCallee(), 0, map[*ssa.Function]bool{}) {
+						good = true
+					}
+				}
+			}
+			if good {
+				c.ok(key, c.P.Pos(st.Pos()), "comes from a function that normalises carriage returns")
+			} else {
+				c.viol(key, c.P.Pos(st.Pos()), "the rune readers no longer treat '\\r' as a newline, and this text reaches the scanner without passing a function that does: input with DOS or old Mac line endings is rejected on this path")
+			}
+		})
+	}
+	if n == 0 {
+		c.viol("scanner input", c.P.Pos(readers[0].Pos()), "neither the rune readers nor any input source handles '\\r'")
+	}
+}
+
+// ---------- O21: a file-local binding at top level looks at the globals first ----------
+
+func init() {
+	register("O21", "the two tables of top-level names are consulted together: a name bound at top level lives either in the file block (names bound by load) or in the resolver's table of globals. The function that binds ordinary assignments looks in both before it creates a binding. Every other function of the resolver that creates a file-local binding directly (the load statement calling bindLocal) also looks the name up in the table of globals, with the found-flag used; otherwise `x = 1` followed by `load(\"m\", \"x\")` binds x twice at top level without the 'cannot reassign' error that the reverse order gets", 1, ruleO21)
+	claim("C09", "O21")
+}
+
+func ruleO21(c *Ctx) {
+	n := 0
+	// the function that creates file-local bindings: called with the identifier, it stores into the
+	// bindings map of the current block. Its direct callers are the binders.
+	var bl *ssa.Function
+	for _, fn := range c.P.Funcs {
+		if relPkg(fnPkgPath(fn)) != "resolve" || fn.Signature.Recv() == nil || fn.Parent() != nil || !isNamed(deref(fn.Signature.Recv().Type()), "resolve", "resolver") {
+			continue
+		}
+		// appends to Locals of the container or to the module's locals, and returns bool
+		res := fn.Signature.Results()
+		if res.Len() != 1 || fn.Signature.Params().Len() != 1 {
+			continue
+		}
+		if bt, ok := res.At(0).Type().Underlying().(*types.Basic); !ok || bt.Kind() != types.Bool {
+			continue
+		}
+		writesLocals := false
+		eachInstr(fn, func(in ssa.Instruction) {
+			if fa, ok := in.(*ssa.FieldAddr); ok {
+				name := deref(fa.X.Type()).Underlying().(*types.Struct).Field(fa.Field).Name()
+				if name == "moduleLocals" || name == "Locals" {
+					writesLocals = true
+				}
+			}
+		})
+		if writesLocals {
+			bl = fn
+		}
+	}
+	if bl == nil {
+		c.anchorFail("the resolver's file-local binder (bindLocal) not found")
+		return
+	}
+	readsGlobals := func(fn *ssa.Function) bool {
+		found := false
+		eachInstr(fn, func(in ssa.Instruction) {
+			lk, ok := in.(*ssa.Lookup)
+			if !ok || !lk.CommaOk {
+				return
+			}
+			ld, ok := lk.X.(*ssa.UnOp)
+			if !ok {
+				return
+			}
+			fa, ok := ld.X.(*ssa.FieldAddr)
+			if !ok || !isNamed(deref(fa.X.Type()), "resolve", "resolver") {
+				return
+			}
+			if deref(fa.X.Type()).Underlying().(*types.Struct).Field(fa.Field).Name() != "globals" {
+				return
+			}
+			// the found-flag is used
+			if refs := lk.Referrers(); refs != nil {
+				for _, r := range *refs {
+					if ex, ok := r.(*ssa.Extract); ok && ex.Index == 1 && ex.Referrers() != nil && len(*ex.Referrers()) > 0 {
+						found = true
+					}
+				}
+			}
+		})
+		return found
+	}
+	for _, fn := range c.P.Funcs {
+		if relPkg(fnPkgPath(fn)) != "resolve" {
+			continue
+		}
+		calls := false
+		var at ssa.Instruction
+		eachInstr(fn, func(in ssa.Instruction) {
+			if call, ok := in.(*ssa.Call); ok && call.Call.StaticCallee() == bl {
+				calls = true
+				at = in
+			}
+		})
+		if !calls {
+			continue
+		}
+		n++
+		key := fmt.Sprintf("%s: binds a file-local name", fnName(fn))
+		if readsGlobals(fn) {
+			c.ok(key, c.P.Pos(at.Pos()), "looks the name up in the table of globals as well")
+		} else {
+			c.viol(key, c.P.Pos(at.Pos()), "a name is bound in the file block without looking at the table of globals: a load may silently rebind a name that a global declaration already bound (x = 1; load(\"m\", \"x\"))")
+		}
+	}
+	c.note("%d binders of file-local names", n)
 }
